@@ -22,6 +22,7 @@
 -/
 import NemoVerif.Models.V1Interp
 import NemoVerif.Generated.C16Resolve
+import NemoVerif.Generated.C16Predef
 
 namespace NemoVerif.RailsInterp
 open NemoVerif.V1Interp
@@ -51,8 +52,9 @@ def IRail.cfg (textVar : String) (r : IRail) : FlowCfg :=
 structure Setup where
   input : List IRail
   output : List IRail
-  refusal : String          -- predefined message of `bot refuse to respond`
+  refusal : String          -- what the predefined message of `bot refuse to respond` SAYS in this run (the result of rendering it)
   llmText : String          -- what the `general` LLM call answers
+  refusalTpl : String := "" -- the predefined message of `bot refuse to respond` as configured (possibly a template: `{{ var }}`, `$var`)
 
 def Setup.cfgs (base : Cfgs) (s : Setup) : Cfgs :=
   base ++ s.input.map (IRail.cfg "user_message") ++ s.output.map (IRail.cfg "bot_message")
@@ -201,6 +203,34 @@ open NemoVerif.Generated.C16Resolve in
   · subst h11; rfl
   simp [createEventAction, createdEvent, eventSpec, h0, h1, h2, h3, h4, h5, h6, h7, h8, h9, h10, h11]
 
+/-! ### `generate_bot_message`, branch "the bot intent has a predefined message"
+
+      bot_utterance = self.bot_messages[bot_intent][0]            -- the configured message `tpl` (possibly a template)
+      bot_utterance = self._render_string(bot_utterance, context)  -- `rendered`
+      context_updates["skip_output_rails"] = True                  -- for EVERY predefined message
+
+  The one-shot flag `$skip_output_rails` is what keeps `process bot message` from running the output rails on a message that a
+  rail (or a dialog flow) has just uttered.  Whether the assignment is unconditional is DATA regenerated from the source on every
+  run (`Generated.C16Predef.flagOnlyIfUnchanged`).  Rendering itself (Jinja over the context) is NOT modelled: `predefBranch` takes
+  an arbitrary rendering function; in `Setup` the configured message (`refusalTpl`) and what it says in the run (`refusal`) are two
+  INDEPENDENT strings — in this model `generate_bot_message` is reached at most once per turn (only a rail's refusal reaches it, the
+  dialog is the `general` one), so "for every rendering function of the context" and "for every rendered text" quantify over the
+  same runs. -/
+
+/-- the `context_updates` of the predefined branch -/
+def predefUpdates (onlyIfUnchanged : Bool) (tpl rendered : String) : Ctx :=
+  if onlyIfUnchanged && rendered != tpl then [] else [("skip_output_rails", .bool true)]
+
+/-- the predefined branch for an arbitrary rendering function: (context updates, the `BotMessage` event it returns) -/
+def predefBranch (onlyIfUnchanged : Bool) (render : String → Ctx → String) (tpl : String) (σ : Ctx) : Ctx × Event :=
+  (predefUpdates onlyIfUnchanged tpl (render tpl σ), .other "BotMessage" [("text", .str (render tpl σ))])
+
+/-- **predefined message ⇒ flag set, whatever rendering does**: with the shape the branch has in the current source the flag is
+    part of the context updates for every configured message and every rendering result (with the shape "only if rendering left
+    the message unchanged" this is false for every template whose variables have values: `flag_only_if_unchanged_witness`). -/
+@[simp] theorem predefUpdates_eq (tpl rendered : String) :
+    predefUpdates Generated.C16Predef.flagOnlyIfUnchanged tpl rendered = [("skip_output_rails", .bool true)] := rfl
+
 /-- `context_updates[action_result_key] = return_value`, emitted only when some value changes -/
 def resultEvents (σ : Ctx) (name : String) (upd : Ctx) : List Event :=
   (if upd.any (fun kv => σ.get kv.1 != kv.2) then [Event.contextUpdate upd] else []) ++ [Event.actionFinished name true]
@@ -228,7 +258,7 @@ def actionEvents (s : Setup) (σ : Ctx) (name params : String) (rk : Option Stri
     some (resultEvents σ name [("relevant_chunks", .str "\n")], [])
   else if name == "generate_bot_message" then
     -- only reached for the predefined `refuse to respond` in this model
-    some (resultEvents σ name [("skip_output_rails", .bool true)] ++ [Event.other "BotMessage" [("text", .str s.refusal)]], [])
+    some (resultEvents σ name (predefUpdates Generated.C16Predef.flagOnlyIfUnchanged s.refusalTpl s.refusal) ++ [Event.other "BotMessage" [("text", .str s.refusal)]], [])
   else if name == "generate_user_intent" then
     -- no user intents defined: one `general` LLM call yields the bot message
     some ([Event.actionFinished name true, Event.other "BotMessage" [("text", .str s.llmText)]], [Obs.llmCall])
